@@ -61,6 +61,10 @@ CHECKS = {
          "reference resolver model (RFC 9460 procedure) + total replay over an exhaustively enumerated universe of zones x name forms against an in-memory DoH responder that logs every query",
          "75 HTTPS data shapes (absent, 5 rcodes, 9 service sets, alias chains of length 1..6 with 7 kinds of endings incl. loops) x address data x rcodes x in-answer CNAME x target addresses x poisoned answers x 12 name forms are enumerated (quick: covering rotation for 8 of the forms); the real Resolve runs against the in-memory DoH responder; result, error class, set and number of queries and query padding are compared with the model; hostile names, labels and schemes of every boundary length must yield an error or result and only well-formed queries.",
          "model in checks/c14 (chains <=3 must be followed, longer ones may be abandoned; loops end in fallback or error); mixed alias/service RRsets excluded", "§3 C14"),
+ "C16": ("model_checking", "E4 hist + E3 gosched",
+         "history enumeration against a map-based cache model (virtual clock, in-memory DoH, every history up to the depth bound) + controlled-scheduler exploration of concurrent lookups + deterministic write-footprint oracle",
+         "Every history of length 7 (thorough 8) over 9 events (two lookups, four clock advances, zone version change, two failure toggles) is replayed on a fresh Resolver and compared with the model's per-key prediction of upstream queries and admissible content versions; concurrent lookups on colliding keys are explored under the controlled scheduler; Targets/Resolve on shared results are checked byte-for-byte for writes into shared memory.",
+         "clock/transport owned via verif hooks; responses without records carry no TTL bound; plain data races are covered by the footprint oracle and a supplementary (sampled, not counted) free-running -race pass in the thorough tier", "§3 C16"),
 }
 
 NOT_YET = {}
